@@ -1,4 +1,5 @@
 import Gtree.Lemmas.EntryFacts
+import Gtree.Lemmas.HeapGrowSpread
 import Gtree.Lemmas.SourceRefines
 import Gtree.Lemmas.Distinct
 import Gtree.Lemmas.Output
@@ -141,4 +142,35 @@ theorem C03_facts_entry_points_configuration : Facts.entryConfig = expectedEntry
     `OutputProgrammably`, `MkdirProgrammably`, `VerifyProgrammably`, `WalkProgrammably`, `WalkIterProgrammably`) has, word for
     word, the body of the function that replaces it. -/
 theorem C03_facts_aliases_identical : Facts.aliasBodiesEqual.all (fun e => e.2) = true := aliases_identical
+end Gtree
+
+namespace Gtree
+/-- Tie to the source, pointer code included (heap mode of /verif/translate, regenerated on every run): the TEXT PATH OF
+    `OutputFromRoot` — simple_tree_grow_spreader.go `growAndSpread` / `assembleAndPrint`, which assembles a node's branch
+    (the grower's `assembleBranch`, promoted from the embedded grower) and prints its row in ONE pass — against the
+    two-pass "grow, then print" the From-Markdown batch path runs (`defaultGrowerSimple.grow`, then
+    `defaultSpreaderSimple.spread`), all translated over an explicit heap with the caller's writer as a fault oracle.
+    For every heap that holds a forest (all pointers different), every four branch strings, every writer and every
+    fuel above `2·size + 1`, both hand the writer the same `Write`s — the model's `textChunks` of every root, until a
+    `Write` fails — and return the same error. -/
+theorem C03_root_text_path_is_the_source (dgs : SrcH.defaultGrowSpreaderSimple) (ds : SrcH.defaultSpreaderSimple)
+    (hv : dgs.defaultGrowerSimple.enabledValidation = false)
+    (ts : List T) (h : SrcH.Heap) (w : Go.Writer) (rs : List Go.Ptr) (fuel : Nat)
+    (hr : SrcH.ReprRoots h ts rs) (hnd : (SrcH.ptrsKids h ts rs).Nodup) (hf : 2 * sizeList ts + 1 ≤ fuel) :
+    ∃ h1 h2,
+      SrcH.defaultGrowSpreaderSimple.growAndSpread fuel h w dgs rs =
+        some (h1, (SrcH.writeAll w (ts.flatMap (textChunks (SrcH.fmtOf dgs.defaultGrowerSimple)))).1,
+                  (SrcH.writeAll w (ts.flatMap (textChunks (SrcH.fmtOf dgs.defaultGrowerSimple)))).2) ∧
+      SrcH.defaultGrowerSimple.grow fuel h dgs.defaultGrowerSimple rs = some (h2, none) ∧
+      SrcH.defaultSpreaderSimple.spread fuel h2 w ds rs =
+        some (SrcH.writeAll w (ts.flatMap (textChunks (SrcH.fmtOf dgs.defaultGrowerSimple)))) := by
+  obtain ⟨h1, hrun1, _⟩ := SrcH.growAndSpread_forest dgs hv ts h w rs fuel hr hnd hf
+  obtain ⟨h2, hrun2, hrest⟩ := SrcH.grow_forest dgs.defaultGrowerSimple ts h rs fuel hr hnd hf
+  have he : SrcH.expErr dgs.defaultGrowerSimple (ts.flatMap (growRoot (SrcH.fmtOf dgs.defaultGrowerSimple))) = none := by
+    simp [SrcH.expErr, hv]
+  rw [he] at hrun2
+  obtain ⟨hs, _, hrd⟩ := hrest he
+  refine ⟨h1, h2, hrun1, hrun2, ?_⟩
+  rw [SrcH.spread_heap ds h2 ts w rs fuel (SrcH.ReprRoots_shape hs ts rs hr) (by omega), hrd, List.map_flatMap]
+  rfl
 end Gtree
